@@ -213,11 +213,13 @@ func protoCall(res *Result, ps *protoSrc, api string, steps []rstep, pl scriptPl
 	}
 
 	var (
-		prog     *bcl.Prog
-		err      error
-		out, log bytes.Buffer
+		prog *bcl.Prog
+		err  error
 	)
-	opts := []bcl.Option{bcl.OptOutput(&out), bcl.OptLogger(&log)}
+	// writers that notice a write arriving after the call has returned
+	out := &lateBuf{returned: &f.returned}
+	log := &lateBuf{returned: &f.returned}
+	opts := []bcl.Option{bcl.OptOutput(out), bcl.OptLogger(log)}
 	id, ok, pan := protoWatchdogRun(protoWatchdog, func() {
 		switch api {
 		case "ParseFile":
@@ -274,6 +276,10 @@ func protoCall(res *Result, ps *protoSrc, api string, steps []rstep, pl scriptPl
 	}
 	if u.closes > 1 {
 		fail(fmt.Sprintf("Close called %d times", u.closes), "Close is called on the input exactly once")
+	}
+	if n := out.late.Load() + log.late.Load(); n > 0 {
+		fail(fmt.Sprintf("%d write(s) to the caller's output/log writers arrived after the call had returned", n),
+			"the goroutines of a call do not go on using the caller's writers after it returned (the caller may be reading them)")
 	}
 	if u.readsAfterClose > 0 {
 		fail(fmt.Sprintf("%d Read(s) issued after Close", u.readsAfterClose), "no Read after Close")
@@ -353,4 +359,33 @@ func protoCall(res *Result, ps *protoSrc, api string, steps []rstep, pl scriptPl
 		h := sha1.Sum(ps.Src)
 		res.Nontrivial(api + "|" + script + "|" + string(h[:]))
 	}
+}
+
+// lateBuf is a writer that counts writes arriving after the call returned.
+type lateBuf struct {
+	mu       sync.Mutex
+	buf      bytes.Buffer
+	returned *atomic.Bool
+	late     atomic.Int32
+}
+
+func (b *lateBuf) Write(p []byte) (int, error) {
+	if b.returned.Load() {
+		b.late.Add(1)
+	}
+	b.mu.Lock()
+	defer b.mu.Unlock()
+	return b.buf.Write(p)
+}
+
+func (b *lateBuf) String() string {
+	b.mu.Lock()
+	defer b.mu.Unlock()
+	return b.buf.String()
+}
+
+func (b *lateBuf) Bytes() []byte {
+	b.mu.Lock()
+	defer b.mu.Unlock()
+	return append([]byte(nil), b.buf.Bytes()...)
 }
